@@ -25,7 +25,9 @@ RULE = ('fault enumeration: first frame x second frame over {2probe, 2, 2x, '
         'websocket} x server(2); cells with concurrent activity additionally under '
         'seeded random cooperative schedules; thorough = all cells, quick = seeded sample + '
         'all cells with default config. distinct = distinct cells; each '
-        'evaluates the trace automaton')
+        'evaluates the trace automaton; third server = asyncio behind the '
+        'real aiohttp adapter; plus two upgrade sockets competing for one '
+        'session (3 timings x 5 behaviours x 2 ends x 3 servers)')
 ASSUMPTIONS = ['UPGRADE = any packet of type 5; probe = text frame "2probe"',
                'allow_upgrades=False constrains only the advertisement (C11), '
                'not acceptance',
